@@ -240,7 +240,11 @@ def check(ctx, rep, rule):
         if len(comp) == 1 and comp[0] not in g.get(comp[0], ()):
             continue
         nscc += 1
-        name = '{%s}' % ', '.join(c.split('::')[-1] for c in comp[:6])
+        # representative: the member called from the most members (stable when helpers join the cycle)
+        indeg = {c: sum(1 for d in comp if c in g.get(d, ())) for c in comp}
+        rep_member = sorted(comp, key=lambda c: (-indeg[c], c))[0]
+        name = 'cycle through %s' % rep_member.split('::')[-1]
+        members = ', '.join(c.split('::')[-1] for c in comp[:8])
         if all(c.startswith(P) or c == 'parser::parse' for c in comp):
             # no cycle of calls that consume nothing
             lazy = {}
@@ -269,8 +273,8 @@ def check(ctx, rep, rule):
             rep.ob(ok, rule, 'lexer', 'recursion ' + name, 'the tokenizer re-enters itself only after consuming a character', 'src/lexer.rs')
         else:
             rep.bad(rule, 'recursion', name,
-                    'recursion over a data structure whose depth follows the nesting of the input (no depth limit): a deeply nested '
-                    'program exhausts the host stack', None)
+                    'recursion {%s} over a data structure whose depth follows the nesting of the input (no depth limit): a deeply nested '
+                    'program exhausts the host stack' % members, None)
     rep.count('recursion_sccs', nscc)
 
 
